@@ -26,7 +26,10 @@ def dbOfJson (g : Json) : Except String Db := do
     let n ← jstr p "name"
     let v ← jstr p "version"
     let deps ← (← jarr p "deps").mapM depOfJson
-    decls := decls ++ [{ name := n, ver := v, deps := deps }]
+    let missing := match p.getObjVal? "missing" with
+      | .ok (Json.bool b) => b
+      | _ => false
+    decls := decls ++ [{ name := n, ver := v, deps := deps, tableMissing := missing }]
     let tags ← match p.getObjVal? "tags" with
       | .ok t => do pure ((← t.getArr?).toList)
       | .error _ => pure []
